@@ -343,6 +343,8 @@ def compare_q(res, q, rtol=1e-9):
         # a covariance input whose gradient vanished identically is still listed by the code; accept extra zero entries
         extra = set(q.cov) ^ set(res.covobs)
         for k in extra:
+            if k in res.covobs and not np.any(np.asarray(res.covobs[k].cov)):
+                continue      # zero covariance: carries no fluctuation (plain numbers inside matrices)
             g = q.cov[k][1] if k in q.cov else np.asarray(res.covobs[k].grad).ravel()
             if np.any(np.abs(g) > 1e-12):
                 out.append('covariance inputs %r vs %r' % (sorted(res.covobs), sorted(q.cov)))
